@@ -74,6 +74,8 @@ type Finding struct {
 
 // Run is one invocation of one property's monitor.
 type Run struct {
+	violations int64 // first field: 64-bit atomics need 8-byte alignment on 32-bit platforms
+
 	Prop    string
 	Tier    string
 	Seed    int64
@@ -91,7 +93,6 @@ type Run struct {
 	counters   map[string]int64
 	samples    []interface{}
 	ntSamples  []interface{}
-	violations int64
 	vioShown   int
 	known      map[string]int64
 	gates      []gate
@@ -170,6 +171,12 @@ func NewRun(prop, tier string) *Run {
 		r.Hooks = "unknown"
 	}
 	r.findings = loadFindings(filepath.Join(root, "known_findings.txt"))
+	if n := os.Getenv("VERIF_EXTRA_NOTE"); n != "" {
+		r.notes = append(r.notes, n)
+	}
+	if pf := os.Getenv("VERIF_PLATFORM"); pf != "" {
+		r.notes = append(r.notes, "this pass runs on GOARCH="+pf)
+	}
 	return r
 }
 
